@@ -62,6 +62,9 @@ def run(chk):
     for _ in range(N):
         n = int(rng.integers(3, 10 if not thorough else 13))
         m = int(rng.integers(2, min(n, 5) + 1))
+        if rng.random() < 0.25:
+            m = n + int(rng.integers(1, 4))          # wide basis: more modes than sensors (all modes matter for the geometry)
+            chk.count("wide_basis")
         k = min(n, m)
         B = rng.integers(-40, 41, size=(n, m)) / 8.0
         Bq = fr_mat(B)
